@@ -58,8 +58,11 @@ def build_cond(c):
     raise ValueError(c)
 
 
-def make_leaves(n):
+def make_leaves(n, same=False):
     from dagrt.language import Nop
+    # same=True: the SAME leaf statement n times (the trace is then the number of leaves run)
+    if same:
+        return [Nop(id="leaf0")] * n
     return [Nop(id="leaf%d" % i) for i in range(n)]
 
 
@@ -342,13 +345,32 @@ def check_tree(ex, t, tracer_flags=None):
         return {"tree": t, "kind": "exception", "exc": type(e).__name__}
     out = guarded_trace(out_tree, flags)
     verdict, model = ex.prove(z3.Not(trace_difference(inp, out)))
-    if verdict == "valid":
-        return None
     if verdict == "unknown":
         return None  # counted as undecided in stats
-    val = {name: bool(z3.is_true(model.eval(b, model_completion=True)))
-           for name, b in flags.items()}
-    return {"tree": t, "kind": "trace", "valuation": val}
+    if verdict != "valid":
+        val = {name: bool(z3.is_true(model.eval(b, model_completion=True)))
+               for name, b in flags.items()}
+        return {"tree": t, "kind": "trace", "valuation": val}
+    if nl < 2:
+        return None
+    # second pass (after seeded change C06_r7): all leaves structurally equal, so that a rewrite which compares
+    # branches for equality sees equal branches; the trace is then the NUMBER of leaves run, for every valuation
+    tree2 = build_tree(t, make_leaves(nl, same=True))
+    flags2 = {}
+    inp2 = guarded_trace(tree2, flags2)
+    try:
+        out2 = guarded_trace(simplify_ast(tree2), flags2)
+    except Exception as e:  # noqa
+        ex.stats.obligations += 1
+        ex.stats.refuted += 1
+        return {"tree": t, "kind": "exception", "exc": type(e).__name__, "same_leaves": True}
+    b2i = lambda g: z3.If(g, 1, 0)  # noqa
+    cnt = lambda tr: z3.Sum([b2i(g) for _, g in tr] + [z3.IntVal(0)])  # noqa
+    verdict, model = ex.prove(cnt(inp2) == cnt(out2))
+    if verdict in ("valid", "unknown"):
+        return None
+    val = {name: bool(z3.is_true(model.eval(b, model_completion=True))) for name, b in flags2.items()}
+    return {"tree": t, "kind": "trace", "valuation": val, "same_leaves": True}
 
 
 def work(item):
@@ -393,7 +415,7 @@ def count_holes_filled(t):
 def replay(d):
     from dagrt.codegen.dag_ast import simplify_ast
     t = d["tree"]
-    leaves = make_leaves(count_leaves(t))
+    leaves = make_leaves(count_leaves(t), same=bool(d.get("same_leaves")))
     tree = build_tree(t, leaves)
     try:
         out = simplify_ast(tree)
@@ -493,6 +515,7 @@ def main(tier, seed):
         run.harness_errors.append("self-test failed: %r" % run.selftests)
     run.extra["exhaustive_trees"] = n_exh
     run.assumptions = [
+        "second pass per tree with all leaves structurally equal (trace = number of leaves run per valuation); "
         "leaf statements are opaque and do not assign condition flags "
         "(the single-definition rule for <cond> flags, C10, makes this true for builder output)",
         "conditions are flags, negated flags (single/double) or the constants True/False",
